@@ -241,6 +241,28 @@ func (m *SMT) wellFormed(v Value) {
 	case SliceV:
 		m.assume(And("(<= 0 "+v.Len+")", "(<= "+v.Len+" "+v.Cap+")", "(<= 0 "+v.Off+")"))
 		m.assume(Implies(Eq(v.Arr, NilRef), Eq(v.Len, "0")))
+	case IfaceV:
+		// the dynamic type of an interface value implements the interface: it is none of the
+		// pointer types seen so far that do not; and the boxed reference has that dynamic type
+		if it, ok := v.Typ.Underlying().(*types.Interface); ok && v.Dyn == nil && v.Tag != "0" {
+			var fs []Term
+			for _, pt := range m.ptrTypes {
+				if !types.Implements(pt, it) {
+					fs = append(fs, Not(Eq(v.Tag, IntLit(int64(m.typeIDOf(pt))))))
+				}
+			}
+			fs = append(fs, Implies(Not(Eq(v.Tag, "0")), Eq("(dyntype "+v.Data+")", v.Tag)))
+			fs = append(fs, Implies(Eq(v.Tag, "0"), Eq(v.Data, NilRef)))
+			m.assume(And(fs...))
+		}
+	case PtrV:
+		// a non-nil pointer to a named struct type points to an object of that type: pointers
+		// of different struct types never alias
+		if v.Cell == nil && v.Leaf == nil && v.Ref != NilRef && structOf(v.Elem) != nil {
+			if _, named := v.Elem.(*types.Named); named {
+				m.assume("(or (= " + v.Ref + " nilref) (= (dyntype " + v.Ref + ") " + IntLit(int64(m.typeIDOf(types.NewPointer(v.Elem)))) + "))")
+			}
+		}
 	case StructV:
 		for _, f := range v.F {
 			m.wellFormed(f)
